@@ -160,6 +160,11 @@ impl M {
                 };
                 state.instruments.instrument_index_mut(&InstrumentIndex(w)).orders.0.insert(self.order_key(w).cid, self.order_with(w, st));
             }
+            if it.held.is_none() && it.cancelling {
+                // only reachable after a violation: cancel in flight without confirmed open data
+                let st = ActiveOrderState::CancelInFlight(CancelInFlight { order: None });
+                state.instruments.instrument_index_mut(&InstrumentIndex(w)).orders.0.insert(self.order_key(w).cid, self.order_with(w, st));
+            }
             if let Some((t, v)) = s.0[L1[w]].held {
                 state.instruments.instrument_index_mut(&InstrumentIndex(w)).data.l1 = Self::l1(t, v);
             }
@@ -192,7 +197,8 @@ impl M {
                         let v: u8 = op.filled_quantity.try_into().unwrap_or(9);
                         out[ORD[w]] = (Some((tt(op.time_exchange), v)), cancelling, v < 2);
                     }
-                    None => out[ORD[w]] = (None, cancelling, false), // tracked without confirmed data: not reachable here
+                    // tracked without confirmed data: readable only as a cancel marker
+                    None => out[ORD[w]] = (None, cancelling, cancelling),
                 }
             }
             if inst.orders.0.len() > 1 || (inst.orders.0.len() == 1 && !inst.orders.0.contains_key(&self.order_key(w).cid)) {
@@ -268,7 +274,8 @@ impl Model for M {
                     v.push(Act::Msg(i, t, val));
                 }
             }
-            if ORD.contains(&i) && !s.0[i].cancelling {
+            // offered in every state: a cancel request may be re-sent while one is in flight
+            if ORD.contains(&i) {
                 v.push(Act::CancelSent(i));
             }
         }
